@@ -62,7 +62,13 @@ def c_hex_odd():
 
 
 def c_hex_selector():
-    """i = cell.coordinate[K];  offsets = X if i % 2 else Y   with {X, Y} = {even_offsets, odd_offsets}"""
+    """loop body of HexGrid._connect_cells_2d:
+         <p> = cell.coordinate[K];  offsets = X if <test over p> else Y;  self._connect_single_cell_2d(cell, offsets)
+    with {X, Y} = {even_offsets, odd_offsets}.  The test is TRANSLATED with pyexpr (an int-valued test is read with
+    Python truthiness, != 0), so that harmless rewrites (`i % 2 == 1`, `i % 2 != 0`, swapped branches under the
+    negated test) are followed; Proofs re-check the touching theorem for whatever comes out."""
+    import pyexpr
+
     tree = T._parse(GRID)
     fn = T._find_func(T._find_class(tree, "HexGrid"), "_connect_cells_2d")
     lp = _uses_2d_helper(fn)
@@ -85,17 +91,23 @@ def c_hex_selector():
             and a1.targets[0].id == "offsets" and isinstance(a1.value, ast.IfExp)):
         raise T.Broken("offsets is not chosen by a conditional expression")
     ife = a1.value
-    t = ife.test
-    if not (isinstance(t, ast.BinOp) and isinstance(t.op, ast.Mod) and isinstance(t.left, ast.Name) and t.left.id == pv
-            and isinstance(t.right, ast.Constant) and t.right.value == 2):
-        raise T.Broken("selector test is not `<parity variable> % 2`")
+    names = {n.id for n in ast.walk(ife.test) if isinstance(n, ast.Name)}
+    if names != {pv}:
+        raise T.Broken(f"selector test mentions {sorted(names)}, expected only {pv}")
+    try:
+        t, k = pyexpr.Tr().expr(ife.test)
+    except pyexpr.Unsupported as e:
+        raise T.Broken(f"selector test outside the translated subset: {e}") from None
+    cond = t if k == "bool" else f"(negb ({t} =? 0))" if k == "Z" else None
+    if cond is None:
+        raise T.Broken("selector test is neither int nor bool")
     if not (isinstance(ife.body, ast.Name) and isinstance(ife.orelse, ast.Name)):
         raise T.Broken("selector branches are not plain names")
     br = (ife.body.id, ife.orelse.id)
     if br == ("even_offsets", "odd_offsets"):
-        truthy_even = True
+        body_even = True
     elif br == ("odd_offsets", "even_offsets"):
-        truthy_even = False
+        body_even = False
     else:
         raise T.Broken(f"selector branches are {br}")
     call = body[2]
@@ -108,10 +120,11 @@ def c_hex_selector():
             ok = True
     if len(cv.args) == 2 and isinstance(cv.args[1], ast.Name) and cv.args[1].id == "offsets":
         ok = True
-    if not ok:
-        raise T.Broken("the chosen offsets are not what is passed on")
+    if not ok or not (cv.args and isinstance(cv.args[0], ast.Name) and cv.args[0].id == lp.target.id):
+        raise T.Broken("the chosen offsets / the cell are not what is passed on")
     return (f"Definition gen_hex_parity_axis : Z := {axis}.\n"
-            f"Definition gen_hex_odd_uses_even_table : bool := {'true' if truthy_even else 'false'}.")
+            f"Definition gen_hex_select ({pv} : Z) : bool := {cond}.\n"
+            f"Definition gen_hex_body_is_even_table : bool := {'true' if body_even else 'false'}.")
 
 
 def _cache_params(fname, defname):
@@ -171,7 +184,8 @@ CONSTRUCTS = [
     ("hex_even_offsets", GRID, c_hex_even, _fb("Definition gen_hex_even_offsets : list (Z * Z) := [].")),
     ("hex_odd_offsets", GRID, c_hex_odd, _fb("Definition gen_hex_odd_offsets : list (Z * Z) := [].")),
     ("hex_selector", GRID, c_hex_selector,
-     _fb("Definition gen_hex_parity_axis : Z := 0.\nDefinition gen_hex_odd_uses_even_table : bool := false.")),
+     _fb("Definition gen_hex_parity_axis : Z := 0.\nDefinition gen_hex_select (i : Z) : bool := false.\n"
+         "Definition gen_hex_body_is_even_table : bool := false.")),
     ("cell_inner_cache", CELL, c_inner_cache, _fb("Definition gen_cell_inner_cache : option (list cparam) := Some [].")),
     ("cell_get_cache", CELL, c_get_cache, _fb("Definition gen_cell_get_cache : option (list cparam) := Some [].")),
     ("cell_nbhd_cached_property", CELL, c_prop_cached, _fb("Definition gen_cell_nbhd_cached_property : bool := true.")),
